@@ -43,6 +43,27 @@ func Match(patterns []string, mode Mode, s string) (string, error) {
 	if mode&Suffix != 0 && mode&Prefix != 0 {
 		return "", NoMatch
 	}
+	if len(patterns) > 1 {
+		// an alternation prefers its first alternative, not the
+		// smallest or largest match: match one by one
+		smallest := mode&Smallest != 0 && mode&Largest == 0
+		var best string
+		found := false
+		for _, pat := range patterns {
+			switch m, err := Match([]string{pat}, mode, s); {
+			case err == NoMatch:
+			case err != nil:
+				return "", err
+			case !found || smallest && len(m) < len(best) || !smallest && len(m) > len(best):
+				best = m
+				found = true
+			}
+		}
+		if !found {
+			return "", NoMatch
+		}
+		return best, nil
+	}
 	rx, err := compile(patterns, mode)
 	if err != nil {
 		return "", err
